@@ -51,6 +51,12 @@ func chainSyncSetup(s *rt.Sim, tier string) func() {
 			effLimit = chainsync.DefaultPipelineLimit // a configured 0 means "unset"
 		}
 		blocks := fixBlocks()
+		var postByron []fixBlock
+		for _, b := range blocks {
+			if !b.Byron {
+				postByron = append(postByron, b)
+			}
+		}
 		nops := 3 + pick("cfg", 40)
 		var hist []csOp
 		for i := 0; i < nops; i++ {
@@ -60,8 +66,9 @@ func chainSyncSetup(s *rt.Sim, tier string) func() {
 			} else {
 				op.kind = "fwd"
 				op.blk = blocks[pick("op", len(blocks))]
-				if ntn && op.blk.Era == "byron" {
-					op.blk = blocks[1+pick("op", len(blocks)-1)]
+				if ntn && op.blk.Byron {
+					// the property speaks of Shelley-or-later blocks over node-to-node
+					op.blk = postByron[pick("op", len(postByron))]
 				}
 			}
 			op.await = chance("op", 1, 7)
